@@ -596,7 +596,7 @@ def _r5(model, res, c):
     n_while = 0
     for k in sorted(c.reach):
         m, f = cg.funcs[k]
-        consts = guards.module_consts(m)
+        consts = guards.module_consts(m, model)
         for n in walk_no_defs(f):
             if isinstance(n, ast.While):
                 n_while += 1
